@@ -20,6 +20,7 @@ why={"C08":"repairing the writer means changing the version byte that existing t
      "C02":"scalars are written with a simple dataspace [1] by design (the code comments say so and the dataspace tests expect it); telling the two apart needs the scalar dataspace class in the writer and a different rule in the reader, which changes what reference-library files with shape (1,) attributes return. (heap-beyond-one-block: see C15)",
      "C03":"listing a dense group needs a reader for dense link storage (link info message, fractal heap of link messages, name index) — a feature, not a small repair; the writer side is exercised by the library's own tests only through its internal structures",
      "C07":"the result of Read is one value per element of the extent, so its size is the extent's by construction; a sparse or compressed chunked dataset of the reference library legitimately has an extent far larger than its file, so no bound tied to the file size can be enforced without rejecting valid files — the limit is a policy decision (the library's is 1 TiB)",
+     "C17":"reporting the undecodable attribute as an error makes the existing test TestReference_AllFiles fail: it requires Attributes() to succeed on a deliberately malformed reference file (memleak_H5O_dtype_decode_helper_H5Odtype.h5), so the lenient behaviour is asserted by the suite",
      "C18":"the lazy state is shared between the loop goroutine and foreground calls without any lock; a repair is a locking design for WritableBTreeV2"}
 opn="| id | property | harness / label | what fails, and why it is recorded rather than repaired |\n|---|---|---|---|\n"
 for f in op:
@@ -31,7 +32,7 @@ for m in metas:
     sd+=f"| {m['id']} | {m['breaks_property']} | {m['needs_to_manifest']} | " + "; ".join("`"+x+"`" for x in m['detected_by'][:2]) + " |\n"
 caught=sum(1 for m in metas if m['detected'])
 own=sum(1 for m in metas if m['id'].startswith('self_'))
-sd+=f"\n{len(metas)-own} changes written by independent sub-agents (each saw only the property text and its own scratch worktree) plus {own} of our own; all compile, pass the unedited suite, and have a demonstration that fails with the change only (confirmed with `seed_confirm.sh` against the current HEAD of /repo). {caught} of {len(metas)} are caught by the checks as committed (first passes: round 1 21 of 36, round 2 13 of 22, round 3 8 of 16 — the misses are what the later harnesses were written for). "
+sd+=f"\n{len(metas)-own} changes written by independent sub-agents (each saw only the property text and its own scratch worktree) plus {own} of our own; all compile, pass the unedited suite, and have a demonstration that fails with the change only (confirmed with `seed_confirm.sh` against the current HEAD of /repo). {caught} of {len(metas)} are caught by the checks as committed (first passes: round 1 21 of 36, round 2 13 of 22, round 3 8 of 16, round 4 4 of 12 — the misses are what the later harnesses were written for). "
 sd+=open('/verif/seeded/NOTES.md').read() if glob.glob('/verif/seeded/NOTES.md') else ""
 sd+="\n\n"
 def repl(s,head,nexthead,body):
